@@ -1460,6 +1460,11 @@ class Interp:
                 self.raise_py(TypeError)
             return VStr(v.s)
         if isinstance(ty, _v._TBytes) and isinstance(v, VBytes): return v
+        if isinstance(ty, _v._TDyn):
+            if isinstance(v, VDyn): return v
+            if isinstance(v, (VStr, VInt, VBool, VNone, VBytes)):
+                k, s_, i_ = self.ctx.store_terms(v, ty)
+                return VDyn(k, s_, i_)
         if isinstance(ty, _v._TChunks) and isinstance(v, VChunks): return v
         if isinstance(ty, _v._TChunks) and isinstance(v, VEmptyList): return VChunks(z3.StringVal(''))
         if isinstance(ty, Ref) and isinstance(v, VRef): return v
